@@ -449,7 +449,7 @@ def outcome_of(dr, same):
 
 def run(ck: Check):
     ck.level = "translation_validation"
-    obligations, discharged, axioms = standard_proof_step(ck, extra_targets=["Model/SampleCorr.vo"])
+    obligations, discharged, axioms = standard_proof_step(ck, extra_targets=["Model/SampleCorr.vo", "Proofs/SampleGuarded.vo"])
     r = ck.rng
     NSETS = int(os.environ.get("C13_NSETS") or ck.n(120, 3000))
 
